@@ -296,7 +296,11 @@ func TestC03(t *testing.T) {
 						}
 					}()
 				}
-				go func() { r.extKill(time.Duration(p.Arg) * time.Millisecond); time.Sleep(300 * time.Millisecond); close(stop) }()
+				go func() {
+					r.extKill(time.Duration(p.Arg) * time.Millisecond)
+					time.Sleep(300 * time.Millisecond)
+					close(stop)
+				}()
 			}
 		}
 		// the death
